@@ -374,6 +374,46 @@ func vfH_C12_connectreply() {
 	vfrt.Assert(len(body) == 0 || bytes.Equal(body, full) || !bytes.HasPrefix(full, body), "connectreply/no-truncated-upstream-body-presented-as-complete")
 }
 
+//vf:assume C12-connect-rejected: a client CONNECT through a static http upstream proxy whose reply to the proxy's own CONNECT is a rejection (403/407/502/503) without a body, with a Content-Length body of 6 bytes, or with a chunked body of 6 bytes in two chunks; the client is sent the upstream's status as a complete, well-formed response carrying that body
+
+//vf:harness property=C12 nopanic reach=connect-rejected-no-body,connect-rejected-content-length,connect-rejected-chunked steps=8000000
+func vfH_C12_connect_rejected() {
+	cfg := HTTPProxyConfig{}
+	cfg.Name = "fw"
+	cfg.ProxyLocalhost = AllowProxyLocalhost
+	cfg.UpstreamProxy, _ = url.Parse("http://proxy.internal:3128")
+	hp := vfNewHTTPProxy(cfg)
+	status := []int{403, 407, 502, 503}[vfrt.Choice("upstream-status", 4)]
+	head := "HTTP/1.1 " + strconv.Itoa(status) + " " + http.StatusText(status) + "\r\nX-Upstream: 1\r\n"
+	var reply, want string
+	switch vfrt.Choice("upstream-body", 3) {
+	case 0:
+		vfrt.Reach("connect-rejected-no-body")
+		reply = head + "Content-Length: 0\r\n\r\n"
+	case 1:
+		vfrt.Reach("connect-rejected-content-length")
+		reply, want = head+"Content-Length: 6\r\n\r\nDENIED", "DENIED"
+	case 2:
+		vfrt.Reach("connect-rejected-chunked")
+		reply, want = head+"Transfer-Encoding: chunked\r\n\r\n2\r\nDE\r\n4\r\nNIED\r\n0\r\n\r\n", "DENIED"
+	}
+	upstream := martian.NewVfConn([]byte(reply))
+	hp.proxy.DialContext = func(context.Context, string, string) (net.Conn, error) { return upstream, nil }
+	client := martian.NewVfConn([]byte("CONNECT example.com:443 HTTP/1.1\r\nHost: example.com:443\r\n\r\n"))
+	martian.VfServeConn(hp.proxy, client)
+	br := bufio.NewReader(bytes.NewReader(client.Out.Bytes()))
+	res, perr := http.ReadResponse(br, &http.Request{Method: "CONNECT"})
+	vfrt.Assert(perr == nil, "connect-rejected/client-is-answered-with-a-well-formed-response")
+	if perr != nil {
+		return
+	}
+	vfrt.Assert(res.StatusCode == status, "connect-rejected/the-upstream-proxy's-own-status")
+	body, berr := io.ReadAll(res.Body)
+	vfrt.Assert(berr == nil, "connect-rejected/response-complete")
+	vfrt.Assert(string(body) == want, "connect-rejected/upstream-body-delivered-in-full")
+	vfrt.Assert(br.Buffered() == 0, "connect-rejected/nothing-after-the-response")
+}
+
 //vf:assume C12-oddreply: the origin's reply is one net/http accepts but that is unusual: a status line without a reason phrase (Status "204" / "304" / "200"), an empty Status with only a code, a reason phrase of symbolic bytes; for HEAD and GET requests, bodiless and bodied statuses; the proxy must not crash and must answer with one well-formed response
 
 //vf:harness property=C12 nopanic reach=oddreply-no-reason,oddreply-empty-status,oddreply-symbolic-reason steps=8000000
